@@ -175,6 +175,17 @@ public:
         }
     }
 
+    //! Destroy the items still parked in the buffer (left there when the pipeline was cancelled).
+    void clear( d1::base_filter* my_filter ) {
+        for( size_type i = 0; i < array_size; ++i ) {
+            task_info& temp = array[i];
+            if( temp.is_valid ) {
+                my_filter->finalize(temp.my_object);
+                temp.is_valid = false;
+            }
+        }
+    }
+
     //! Define order when the first filter is serial_in_order.
     Token get_ordered_token(){
         return high_token++;
@@ -414,6 +425,7 @@ pipeline::~pipeline() {
     while( first_filter ) {
         d1::base_filter* f = first_filter;
         if( input_buffer* b = f->my_input_buffer ) {
+            b->clear(f);
             b->~input_buffer();
             deallocate_memory(b);
         }
